@@ -1,15 +1,15 @@
 #!/bin/bash
-# usage: tools/seedall.sh <dir with Cxx/n mutation dirs> [props...]
+# usage: tools/seedall.sh [<dir with Cxx-n mutation dirs>] [props...]     (default dir: /verif/seeded)
 base=${1:-/verif/seeded}; shift
-for d in $base/C*/[0-9]*; do
+for d in $base/C*-[0-9]*; do
   [ -f $d/patch.diff ] || continue
-  p=$(basename $(dirname $d))
+  p=$(basename $d | cut -d- -f1)
   if [ $# -gt 0 ] && ! echo " $* " | grep -q " $p "; then continue; fi
-  [ -f /verif/harness/props/$(echo $p | tr 'A-Z' 'a-z').py ] || { echo "$p/$(basename $d): no check yet"; continue; }
+  [ -f /verif/harness/props/$(echo $p | tr 'A-Z' 'a-z').py ] || { echo "$(basename $d): no check yet"; continue; }
   out=$(python3 /verif/tools/seedtest.py $d $p 2>&1)
   concrete=$(echo "$out" | grep "VIOLATION" | grep -vc "no-failing-input-found")
   unshown=$(echo "$out" | grep -c "no-failing-input-found")
   dis=$(echo "$out" | grep -c "DISAGREEMENT")
   demo=$(echo "$out" | grep "demo on" | sed 's/.*rc=//')
-  echo "$p/$(basename $d): demo_rc=$demo concrete_violations=$concrete unshown=$unshown disagreements=$dis"
+  echo "$(basename $d): demo_rc=$demo concrete_violations=$concrete unshown=$unshown disagreements=$dis"
 done
